@@ -237,6 +237,11 @@ func destArg(cc *ssa.CallCommon) (int, bool) {
 		if b.Name() == "copy" {
 			return 0, true
 		}
+		if b.Name() == "append" {
+			// append writes into the destination's backing array whenever its
+			// capacity allows (always after a re-slice to [:0] or [:n])
+			return 0, true
+		}
 		return 0, false
 	}
 	sc := cc.StaticCallee()
@@ -246,6 +251,8 @@ func destArg(cc *ssa.CallCommon) (int, bool) {
 	switch funcFullName(sc) {
 	case rootPkgPath + ".ZSTDDecompress", rootPkgPath + ".ZSTDCompress":
 		return 0, true
+	case "sort.Strings", "sort.Ints", "sort.Float64s", "sort.Slice", "sort.SliceStable", "sort.Sort", "sort.Stable":
+		return 0, true // sorts its argument in place
 	case "encoding/binary.PutUvarint", "encoding/binary.PutVarint":
 		return 0, true
 	case "github.com/klauspost/compress/zstd.(*Decoder).DecodeAll", "github.com/klauspost/compress/zstd.(*Encoder).EncodeAll":
@@ -942,4 +949,115 @@ func onceDoDominates(fn *ssa.Function, v *ssa.UnOp) bool {
 		}
 	}
 	return false
+}
+
+func init() {
+	register(&Rule{
+		Name:  "DICT-SEALED",
+		Floor: 3,
+		Doc:   "a Dictionary is written only while it is being constructed: every store to a Dictionary field has a freshly allocated Dictionary as its base. A Dictionary is handed to callers who may hold several iterators and postings lists of it at once (and use it from several goroutines); state kept in it after construction is shared between all of them",
+		Run: func(c *Ctx, scope string, r *Report) {
+			p := c.ownershipProv()
+			dict := c.NamedType("Dictionary")
+			for _, fn := range c.srcFns {
+				for _, w := range c.writeSitesIn(fn) {
+					if w.base == nil {
+						continue
+					}
+					n := namedOf(w.base.Type())
+					if n == nil || n.Obj() != dict.Obj() {
+						continue
+					}
+					key := fnName(fn) + "/" + w.desc
+					labels := p.Classify(w.base)
+					if len(labels) == 1 && labels.has("Fresh") {
+						r.ok(key, fnName(fn), c.pos(w.ins.Pos()), "store into a Dictionary under construction")
+					} else {
+						r.bad(key, fnName(fn), c.pos(w.ins.Pos()), "store to "+w.desc+" of a Dictionary that already exists ("+strings.Join(labels.names(), ", ")+"): every iterator and postings list obtained from this Dictionary shares that state")
+					}
+				}
+			}
+		},
+	})
+}
+
+func init() {
+	register(&Rule{
+		Name:  "SCRATCH-OWNED",
+		Floor: 3,
+		Doc:   "a decompression (or compression) result is kept only by the owner of the destination buffer it was written into: if the result of ZSTDDecompress/ZSTDCompress(dst, …) is stored into a field, dst derives from that same field of the same object, and the result is not stored into a field of any other object — two readers never cache data in one shared buffer that either of them overwrites",
+		Run: func(c *Ctx, scope string, r *Report) {
+			fieldOf := func(v ssa.Value, depth int) string {
+				// the (object.field) a slice value was loaded from, through re-slicing
+				for d := 0; d < 6; d++ {
+					switch x := v.(type) {
+					case *ssa.Slice:
+						v = x.X
+						continue
+					case *ssa.UnOp:
+						if x.Op == token.MUL {
+							if fa, ok := x.X.(*ssa.FieldAddr); ok {
+								return accessPath(fa)
+							}
+						}
+					}
+					break
+				}
+				return ""
+			}
+			for _, callee := range []string{"ZSTDDecompress", "ZSTDCompress"} {
+				for _, fn := range c.fnsCalling(callee) {
+					for _, call := range callsOf(fn, callee) {
+						key := fnName(fn) + "/" + callee + "-dst"
+						res := tupleParts(call)[0]
+						dstField := fieldOf(call.Call.Args[0], 0)
+						stored := map[string]bool{}
+						if res != nil {
+							var walk func(v ssa.Value, d int)
+							seen := map[ssa.Value]bool{}
+							walk = func(v ssa.Value, d int) {
+								if seen[v] || d > 4 || v.Referrers() == nil {
+									return
+								}
+								seen[v] = true
+								for _, ref := range *v.Referrers() {
+									switch x := ref.(type) {
+									case *ssa.Store:
+										if fa, ok := x.Addr.(*ssa.FieldAddr); ok && x.Val == v {
+											stored[accessPath(fa)] = true
+										}
+									case *ssa.Phi:
+										walk(x, d+1)
+									case *ssa.Slice:
+										walk(x, d+1)
+									}
+								}
+							}
+							walk(res, 0)
+						}
+						var others []string
+						for f := range stored {
+							if f != dstField {
+								others = append(others, f)
+							}
+						}
+						sort.Strings(others)
+						switch {
+						case len(others) == 0:
+							r.ok(key, fnName(fn), c.pos(call.Pos()), "the result stays with the owner of its destination buffer ("+dstField+")")
+						case dstField == "":
+							// destination is a local / parameter buffer and the result is cached in one field: a hand-over, fine when single
+							if len(others) == 1 {
+								r.ok(key, fnName(fn), c.pos(call.Pos()), "result of a local destination buffer kept in "+others[0])
+							} else {
+								r.bad(key, fnName(fn), c.pos(call.Pos()), "one "+callee+" result is kept in several places ("+strings.Join(others, ", ")+"): they share one backing array")
+							}
+						default:
+							r.bad(key, fnName(fn), c.pos(call.Pos()), "the result of "+callee+" into "+dstField+" is also kept in "+strings.Join(others, ", ")+": another owner caches data in a buffer that "+dstField+"'s owner overwrites on its next use")
+						}
+					}
+				}
+			}
+		},
+	})
 }
